@@ -59,6 +59,8 @@ def gen_table(rng):
         col["style"] = None
     for i, row in enumerate(spec["rows"]):
         row["cells"] = [cell(i, j) for j in range(ncols)]
+    if spec.pop("declared", None) is not None or (ncols >= 2 and nrows >= 1 and rng.random() < 0.1):
+        SP.make_ragged(spec, rng, cell)
     spec["title"] = rng.choice([None, None, "TTT", "TITLE TITLE TITLE"])
     spec["caption"] = rng.choice([None, None, "CCC"])
     if rng.random() < 0.3:
@@ -101,6 +103,8 @@ def table_features(spec, W, m):
         f.append("ratio")
     if any(c["max_width"] is not None for c in spec["columns"]):
         f.append("col_max_width")
+    if spec.get("declared") is not None:
+        f.append("columns_created_by_rows")
     return "+".join(f) or "plain"
 
 
